@@ -282,4 +282,69 @@ theorem dotFix14_small (dx dy px py : Int) (hdx : -1048576 ≤ dx ∧ dx ≤ 104
   rw [wI32 (by omega) (by omega)]
   exact hq
 
+/-! ### ISECT helpers -/
+
+/-- `FT_MulDiv( a, b, 0x40 )` for 16-bit differences: magnitude at most 2^24 + 1. -/
+theorem ft_muldiv64_bound (a b : Int) (ha : -32768 ≤ a ∧ a ≤ 32768) (hb : -32768 ≤ b ∧ b ≤ 32768) :
+    -16777217 ≤ FtCalc.mulDiv a b 64 ∧ FtCalc.mulDiv a b 64 ≤ 16777217 := by
+  have hai : inI32 a := by unfold inI32; omega
+  have hbi : inI32 b := by unfold inI32; omega
+  unfold FtCalc.mulDiv FtCalc.negLong FtCalc.sign3
+  rw [moveSign_abs (i32_i64 hai), moveSign_abs (i32_i64 hbi), moveSign_abs (show inI64 64 by decide)]
+  have ba : 0 ≤ iabs a ∧ iabs a ≤ 32768 := by unfold iabs; split <;> omega
+  have bb : 0 ≤ iabs b ∧ iabs b ≤ 32768 := by unfold iabs; split <;> omega
+  have bm := mul_abs_bound (A := 32768) (B := 32768) (a := iabs a) (b := iabs b) (by omega) (by omega)
+  have bm0 : 0 ≤ iabs a * iabs b := Int.mul_nonneg ba.1 bb.1
+  simp only [show iabs 64 = 64 from by decide]
+  generalize iabs a * iabs b = p at *
+  have e1 : wrapU64 (wrapU64 p + 64 / 2) = p + 32 := by unfold wrapU64; omega
+  simp only [show ((64:Int) > 0) = True from by decide, if_true, e1]
+  have eq1 : wrapI64 ((p + 32) / 64) = (p + 32) / 64 := wI64 (by omega) (by omega)
+  rw [eq1]
+  split
+  · rw [wI64 (by omega) (by omega)]; omega
+  · omega
+
+/-- … and there skrifa's `mul_div(a, b, 0x40)` is exactly FreeType's. -/
+theorem muldiv64_eq (a b : Int) (ha : -32768 ≤ a ∧ a ≤ 32768) (hb : -32768 ≤ b ∧ b ≤ 32768) :
+    HintMath.mulDiv a b 64 = FtCalc.mulDiv a b 64 := by
+  have hb' := ft_muldiv64_bound a b ha hb
+  unfold HintMath.mulDiv
+  exact muldiv_eq_exact a b 64 (by unfold inI32; omega) (by unfold inI32; omega) (by decide) (by unfold inI32; omega)
+
+/-- any `FT_MulDiv` of i32 operands stays far inside the 64-bit range. -/
+theorem ft_muldiv_i64 (a b c : Int) (ha : inI32 a) (hb : inI32 b) (hc : inI32 c) :
+    -4611686020574871552 ≤ FtCalc.mulDiv a b c ∧ FtCalc.mulDiv a b c ≤ 4611686020574871552 := by
+  unfold FtCalc.mulDiv FtCalc.negLong FtCalc.sign3
+  rw [moveSign_abs (i32_i64 ha), moveSign_abs (i32_i64 hb), moveSign_abs (i32_i64 hc)]
+  have ba := iabs_bound ha
+  have bb := iabs_bound hb
+  have bc := iabs_bound hc
+  have bm := mul_bound ba bb
+  simp only []
+  generalize iabs a = ua at *
+  generalize iabs b = ub at *
+  generalize iabs c = uc at *
+  generalize ua * ub = p at *
+  by_cases hz : uc > 0
+  · have e1 : wrapU64 (wrapU64 p + uc / 2) = p + uc / 2 := by unfold wrapU64; omega
+    rw [e1]
+    have hq0 : 0 ≤ (p + uc / 2) / uc := Int.ediv_nonneg (by omega) (by omega)
+    have hq1 : (p + uc / 2) / uc ≤ p + uc / 2 := Int.ediv_le_self _ (by omega)
+    generalize (p + uc / 2) / uc = Q at *
+    simp only [hz, if_true]
+    have eq1 : wrapI64 Q = Q := wI64 (by omega) (by omega)
+    rw [eq1]
+    split
+    · rw [wI64 (by omega) (by omega)]; omega
+    · omega
+  · simp only [hz, if_false]
+    rw [show wrapI64 2147483647 = 2147483647 from by decide]
+    split
+    · rw [show wrapI64 (-2147483647) = -2147483647 from by decide]; omega
+    · omega
+
+theorem wrap_add_wrap (a x : Int) : wrapI32 (a + wrapI32 x) = wrapI32 (a + x) := by
+  unfold wrapI32; simp only []; split <;> split <;> split <;> omega
+
 end FontVerif.C03
